@@ -139,7 +139,14 @@ XMLS = {   # element trees built with ET.fromstring (not by the library's parser
     "bal_bad": "<LEDGERBAL><BALAMT>abc</BALAMT><DTASOF>20051029</DTASOF></LEDGERBAL>",
     "unknown_cls": "<NOSUCH><A>1</A></NOSUCH>",
     "leaf": "<CODE>0</CODE>",
+    # trees as OTHER parsers / callers hand them over: white space between tags as text and tail, padded values, grafted tails
+    "stmttrn_indented": "<STMTTRN>\n  <TRNTYPE>CHECK</TRNTYPE>\n  <DTPOSTED>20051004</DTPOSTED>\n  <TRNAMT>-200.00</TRNAMT>\n  <FITID>00002</FITID>\n"
+                        "  <NAME>  ACME Corp \u3000</NAME>\n</STMTTRN>",
+    "stmtrs_indented": "<STMTRS>\n <CURDEF>USD</CURDEF>\n <BANKACCTFROM>\n  <BANKID>1</BANKID>\n  <ACCTID>2</ACCTID>\n  <ACCTTYPE>CHECKING</ACCTTYPE>\n </BANKACCTFROM>\n"
+                       " <LEDGERBAL>\n  <BALAMT>1.5</BALAMT>\n  <DTASOF>20051029112000</DTASOF>\n </LEDGERBAL>\n</STMTRS>",
+    "status_padded": "<STATUS><CODE> 0 </CODE><SEVERITY>INFO</SEVERITY><MESSAGE>\t two  words \n</MESSAGE></STATUS>",
 }
+XML_TAILS = {"status_padded": " grafted tail ", "leaf": "\n"}      # tail put on the root after parsing (ET.fromstring cannot carry one)
 
 
 def mk_docs(repo):
@@ -150,6 +157,9 @@ def mk_docs(repo):
     d["v2_seclist"] = (V2H + "<OFX>" + SONRS2 % "" + SECLIST + "</OFX>").encode("utf-8")
     d["v2_mail"] = (V2H + "<OFX>" + SONRS2 % "" + MAILD + "</OFX>").encode("utf-8")
     d["v2_all"] = (V2H + "<OFX>" + SONRS2 % "<INTU.BID>1</INTU.BID>" + MAILD + SECLIST + "</OFX>").encode("utf-8")
+    pad = "<MSGBODY><![CDATA[\u3000 <b>ACME</b> & Co  ]]></MSGBODY>"
+    d["v2_mail_cdata_padded"] = (V2H + "<OFX>" + SONRS2 % "" + MAILD.replace("<MSGBODY><![CDATA[<b>hello</b> & goodbye]]></MSGBODY>", pad) + "</OFX>").encode("utf-8")
+    d["v1_stmt_cdata_padded"] = (V1H + "<OFX>" + SONRS1 % "" + STMT1 % "<NAME><![CDATA[  ACME <Corp>  ]]>" + "</OFX>").encode("cp1252")
     d["bad_header"] = b"this is not OFX at all"
     d["bad_date"] = d["v1_stmt"].replace(b"<DTPOSTED>20051004", b"<DTPOSTED>20051304")
     d["bad_close"] = d["v2_mail"].replace(b"</MAILRS>", b"</MAILRQ>")
@@ -763,6 +773,9 @@ class Lib:
                     pass
         elif kind == "xml":
             b["x"] = self.ET.fromstring(XMLS[name])
+            if name in XML_TAILS:
+                b["x"].tail = XML_TAILS[name]
+                for e in b["x"]: e.tail = (e.tail or "") + " "
         elif kind in ("mx", "mxr", "eq"):
             pass
         elif kind == "gen":
@@ -794,7 +807,7 @@ class Lib:
             if type(b["inst"]).__name__ == "OFX":
                 self.checked("client_serialize", b["inst"], reps, out, "client_serialize|%s" % group)
         elif kind == "xml":
-            for c in TREE_CALLS:
+            for c in TREE_CALLS + ["convert"]:          # OFXTree.convert() on a tree the caller built and still holds
                 self.checked(c, b["x"], reps, out, "%s|%s" % (c, group))
         elif kind in ("mx", "mxr"):
             self.run_mx(group, out)
